@@ -360,12 +360,14 @@ impl<'a> Gen<'a> {
     }
     match self.rng.index(22) {
       // sandwich probes (see `scan_sandwiches`): the same names read before and after an expression in one frame -
-      // the caller's, an iteration's, an invocation's, a context literal's, a filter's
-      17 => format!("[\"sw#\", [a, b, zq, s], {}, [a, b, zq, s]]", self.any(d - 1)),
-      18 => format!("(for x in {} return [\"sw#\", [x, a, zq], {}, [x, a, zq]])", self.list(d - 1), self.any(d - 1)),
-      19 => format!("(function(x, y) [\"sw#\", [x, y, a, q], {}, [x, y, a, q]])({}, {})", self.any(d - 1), self.num(d - 1), self.num(d - 1)),
-      20 => format!("{{k: {}, x: k, r: [\"sw#\", [k, x, a, u], {}, [k, x, a, u]]}}.r", self.num(d - 1), self.any(d - 1)),
-      21 => format!("(for q in people[age > 0] return [\"sw#\", [q.age, a, x], {}, [q.age, a, x]])", self.any(d - 1)),
+      // the caller's, an iteration's, an invocation's, a context literal's, a filter's. The probe is a CONTEXT (an
+      // atomic item for every list function, which a list with a marker is not: `union` or `distinct values` may drop
+      // an item of it and shift the others)
+      17 => format!("[{{swb: [a, b, zq, s], swm: {}, swa: [a, b, zq, s]}}]", self.any(d - 1)),
+      18 => format!("(for x in {} return {{swb: [x, a, zq], swm: {}, swa: [x, a, zq]}})", self.list(d - 1), self.any(d - 1)),
+      19 => format!("[(function(x, y) {{swb: [x, y, a, q], swm: {}, swa: [x, y, a, q]}})({}, {})]", self.any(d - 1), self.num(d - 1), self.num(d - 1)),
+      20 => format!("[{{k: {}, x: k, r: {{swb: [k, x, a, u], swm: {}, swa: [k, x, a, u]}}}}.r]", self.num(d - 1), self.any(d - 1)),
+      21 => format!("(for q in people[age > 0] return {{swb: [q.age, a, x], swm: {}, swa: [q.age, a, x]}})", self.any(d - 1)),
       0 => format!("[{}, {}, {}]", self.num(d - 1), self.num(d - 1), self.num(d - 1)),
       1 => format!("(for x in {} return x + {})", self.list(d - 1), self.num(d - 1)),
       2 => format!("(for x in 1..{}, y in {} return x * y)", 1 + self.rng.below(4), self.list(d - 1)),
@@ -623,8 +625,8 @@ fn value_text(v: &FeelValue) -> String {
 
 /// *Sandwich probes.* A frame that is private to an evaluation (the parameters of an invocation, the entries of a
 /// boxed context evaluated so far, an iteration variable) cannot be looked at from outside, so the generated
-/// expressions and the simulator's models look at it themselves: `["sw#", N, E, N]` evaluates the same names `N`
-/// before and after an expression `E` in ONE frame, a (boxed) context does the same with the entries `swb` and `swa`.
+/// expressions and the simulator's models look at it themselves: a context (literal or boxed) reads the same names `N`
+/// in its entries `swb` and `swa`, before and after an expression `E` in the entry between them, all in ONE frame.
 /// Evaluating `E` must not alter the context it is evaluated in, so both readings have to be equal wherever they
 /// turn up in a result. The first pair that differs is parked here and picked up by the operation that evaluated.
 static SANDWICH: std::sync::Mutex<Option<(String, String)>> = std::sync::Mutex::new(None);
@@ -643,11 +645,7 @@ fn scan_sandwiches(v: &FeelValue) {
   }
   match v {
     FeelValue::List(items) => {
-      let items = items.as_vec();
-      if items.len() == 4 && matches!(&items[0], FeelValue::String(m) if m == "sw#") {
-        differ(&items[1], &items[3]);
-      }
-      items.iter().for_each(scan_sandwiches);
+      items.as_vec().iter().for_each(scan_sandwiches);
     }
     FeelValue::Context(ctx) => {
       if let (Some(b), Some(a)) = (ctx.get_entry(&"swb".into()), ctx.get_entry(&"swa".into())) {
